@@ -130,8 +130,16 @@ Outcome run_tool(const Plan &plan, const Case &c, int N, const std::string &outd
     Silence quiet(c05tool::stdout_marker != nullptr);
     o.res = sim::run(cfg, [&] {
       install_phase_observer();
+      long stall_countdown = plan.stall_s > 0 ? 1 + (long)(plan.case_seed % 7) : 0;
       if (!reference && plan.alloc_stride > 0)
-        sim::set_alloc_points(plan.alloc_stride, (long)(plan.case_seed % 1000), [] { return is_evaluating(sim::self()); });
+        sim::set_alloc_points(plan.alloc_stride, (long)(plan.case_seed % 1000), [&stall_countdown, &plan] {
+          if (!is_evaluating(sim::self())) return false;
+          if (stall_countdown > 0 && --stall_countdown == 0) {  // this evaluation takes very long
+            mon().probes["stalled_evaluation"]++;
+            sim::sleep_ns((long long)plan.stall_s * 1000000000LL);
+          }
+          return true;
+        });
       sim::set_on_decision([&] { if (states.size() < 100000) states.push_back(sim::abstract_state()); });
       sim::set_on_uncaught([&](int task, const std::string &what) { o.uncaught = "task " + std::to_string(task) + ": " + what; });
       o.exit_code = tool_main((int)argv.size() - 1, argv.data());
@@ -257,6 +265,7 @@ struct Tool {
     p.fmt = r.chance(0.3) ? 1 : 0;
     p.vol_jitter = r.chance(0.5) ? (r.chance(0.4) ? 2 : 1) : 0;
     { long strides[6] = {0, 0, 0, 5, 29, 173}; p.alloc_stride = strides[r.below(6)]; }
+    if (p.alloc_stride > 0 && r.chance(0.3)) { int ss[2] = {40, 400}; p.stall_s = ss[r.below(2)]; }
     if (r.chance(0.3)) { p.nmol = 4 + (int)r.below(5); p.sparse_mask = (long)(r.next() & 0xfff); if (r.chance(0.3)) p.sparse_mask = 0xaaa; }
     c05tool::tool_generate(p, r, tier);
     p.pick_strategy(r);
@@ -268,7 +277,7 @@ struct Tool {
     p.base_to_json(v);
     v.set("tool", c05tool::engine_name).set("N", p.N).set("F", p.F).set("first_frame", p.first_frame).set("nframes", p.nframes)
      .set("case_seed", (long long)p.case_seed).set("nmol", p.nmol).set("chain", p.chain).set("fmt", p.fmt).set("variant", p.variant)
-     .set("block", p.block).set("vol_jitter", p.vol_jitter).set("alloc_stride", p.alloc_stride).set("sparse_mask", p.sparse_mask).set("lattice", p.lattice).set("variant_meaning", c05tool::tool_variant_json(p));
+     .set("block", p.block).set("vol_jitter", p.vol_jitter).set("alloc_stride", p.alloc_stride).set("stall_s", p.stall_s).set("sparse_mask", p.sparse_mask).set("lattice", p.lattice).set("variant_meaning", c05tool::tool_variant_json(p));
     return v;
   }
   static Plan from_json(const js::Value &v) {
@@ -278,6 +287,7 @@ struct Tool {
     p.case_seed = (uint64_t)v.num("case_seed", 0); p.nmol = (int)v.num("nmol", 4); p.chain = (int)v.num("chain", 2); p.fmt = (int)v.num("fmt", 0);
     p.variant = (int)v.num("variant", 0); p.block = (int)v.num("block", 0); p.vol_jitter = (int)v.num("vol_jitter", 0);
     p.alloc_stride = (long)v.num("alloc_stride", 0);
+    p.stall_s = (int)v.num("stall_s", 0);
     p.sparse_mask = (long)v.num("sparse_mask", 0);
     p.lattice = (int)v.num("lattice", 0);
     return p;
@@ -294,7 +304,8 @@ struct Tool {
     if (p.lattice && p.nmol > 2) { Plan q = p; q.nmol = p.nmol - 1; out.push_back(q); }
     if (p.vol_jitter && !p.lattice) { Plan q = p; q.vol_jitter = 0; out.push_back(q); }
     if (p.sparse_mask) { Plan q = p; q.sparse_mask = 0; out.push_back(q); }
-    if (p.alloc_stride > 0) { Plan q = p; q.alloc_stride = 0; out.push_back(q); q = p; q.alloc_stride = p.alloc_stride * 4; out.push_back(q); }
+    if (p.stall_s > 0) { Plan q = p; q.stall_s = 0; out.push_back(q); }
+    if (p.alloc_stride > 0) { Plan q = p; q.alloc_stride = 0; q.stall_s = 0; out.push_back(q); q = p; q.alloc_stride = p.alloc_stride * 4; out.push_back(q); }
     if (p.fmt && !p.lattice) { Plan q = p; q.fmt = 0; out.push_back(q); }
     for (int b = 0; b < 8; b++) if (p.variant & (1 << b)) { Plan q = p; q.variant &= ~(1 << b); out.push_back(q); }
     if (p.strat_type != sim::Strategy::RW) { Plan q = p; q.strat_type = sim::Strategy::RW; out.push_back(q); }
